@@ -1,0 +1,17 @@
+//go:build verif
+
+// Contracts read by /verif/govc (comment-only; never compiled into the node).
+
+package authorization
+
+// GP (8.2)/(8.3). The removal itself is (*AuthPool).RemoveLeftMostPairedValue (internal/types), proved there against
+// "leftmost occurrence removed, everything else in place". Here: the pool of the guarantee's core is the one edited, no
+// other pool header changes, and nothing panics for a core index inside the pool table.
+//@ pred heq(x, y) = forall(b, 0, 32, x[b] == y[b])
+//@ func updatePoolFromQueue
+//@   props C24
+//@   requires core: int(coreIndex) < len(alpha)
+//@   ensures same: result1 == nil ==> result0 == alpha
+//@   ensures others: forall(c, 0, len(alpha), c != int(coreIndex) ==> alpha[c] == old(alpha[c]))
+//@   ensures shrink: result1 == nil ==> len(alpha[int(coreIndex)]) <= len(old(alpha[int(coreIndex)])) && len(old(alpha[int(coreIndex)])) - len(alpha[int(coreIndex)]) <= 1
+//@   assigns alpha[*], alpha[int(coreIndex)][*]
